@@ -284,6 +284,11 @@ func c18Run(sc qScenario) (vs []ev.V) {
 			if strings.HasPrefix(strings.ToLower(strings.TrimSpace(g.FinalRcpt)), "rfc822;") && nonASCII(g.FinalRcpt) {
 				vs = append(vs, ev.Vf("report:rfc822-recipient-not-ascii", "%s: Final-Recipient %q has address type rfc822 but is not ASCII (part type %s)", where, g.FinalRcpt, p.PartTypes[1]))
 			}
+			// the registered address types for this field are rfc822 (RFC 3464) and utf-8 (RFC 6533 section 3, IANA
+			// "Address Types" registry); there is no type "utf8"
+			if at := strings.ToLower(strings.TrimSpace(strings.SplitN(g.FinalRcpt, ";", 2)[0])); at != "rfc822" && at != "utf-8" {
+				vs = append(vs, ev.Vf("report:address-type", "%s: Final-Recipient %q: address type %q is neither rfc822 nor utf-8", where, g.FinalRcpt, at))
+			}
 			if p.PartTypes[1] == "message/delivery-status" && (nonASCII(g.FinalRcpt) || nonASCII(g.Diag) || nonASCII(g.Status)) {
 				vs = append(vs, ev.Vf("report:8bit-in-delivery-status", "%s: the message/delivery-status part holds non-ASCII data: Final-Recipient %q Diagnostic-Code %q", where, g.FinalRcpt, g.Diag))
 			}
